@@ -189,6 +189,42 @@ def check(ctx, prefixes=SCOPE_PREFIXES, P="C11", ids=None):
                           fi, c, detail=f"aliaser={want}")
         ctx.require(n10 >= 3, f"serialize() calls of the schema generators: {n10} found")
 
+    if P == "C11":
+        ctx.rule("C11.R11", "every public entry point taking an `aliaser` falls back on the global one (settings.aliaser) when none is given: deserialize, serialize, the schema functions and validate report the same external names", floor=6)
+        n11 = 0
+        PUBLIC = [("apischema.deserialization", ("deserialize", "deserialization_method")), ("apischema.serialization", ("serialize", "serialization_method")),
+                  ("apischema.json_schema.schema", ("deserialization_schema", "serialization_schema", "definitions_schema")), ("apischema.validation.validators", ("validate",))]
+        for modname, names in PUBLIC:
+            for fi in model.funcs_in_module(modname):
+                if fi.name not in names or fi.parent is not None or fi.cls is not None:
+                    continue
+                if any((dotted(d) or "").endswith("overload") for d in fi.node.decorator_list):
+                    continue
+                allargs = fi.node.args.args + fi.node.args.kwonlyargs
+                if not any(a.arg == "aliaser" for a in allargs):
+                    continue
+                n11 += 1
+                defaults = dict(zip([a.arg for a in fi.node.args.args][len(fi.node.args.args) - len(fi.node.args.defaults):], fi.node.args.defaults))
+                defaults.update({a.arg: d for a, d in zip(fi.node.args.kwonlyargs, fi.node.args.kw_defaults) if d is not None})
+                d = defaults.get("aliaser")
+                t = norm(fi.node)
+                falls_back = "settings.aliaser" in t and ("opt_or(aliaser, settings.aliaser)" in t or "aliaser is None" in t)
+                forwards = False
+                if not falls_back:
+                    for c in walk_no_nested(fi.node):
+                        if isinstance(c, ast.Call) and (any(isinstance(a, ast.Name) and a.id == "aliaser" for a in c.args) or any(k.arg == "aliaser" and norm(k.value) == "aliaser" for k in c.keywords)):
+                            kind, tg = model.resolve_call(fi, c)
+                            for q_ in tg:
+                                if q_ in model.functions:
+                                    tt = norm(model.functions[q_].node)
+                                    if "settings.aliaser" in tt and ("aliaser is None" in tt or "opt_or(aliaser, settings.aliaser)" in tt):
+                                        forwards = True
+                ok = d is not None and norm(d) == "None" and (falls_back or forwards)
+                ctx.check(ok, "C11.R11", f"{fi.qualname}:aliaser-default", None,
+                          f"{fi.name}() does not fall back on settings.aliaser when no aliaser is given (default `{norm(d) if d is not None else 'required'}`): with settings.camel_case = True, deserialize reports loc ['fooBar'] and {fi.name} ['foo_bar'] for the same field",
+                          fi, fi.node, detail="aliaser=None -> settings.aliaser (or forwarded as is to a function that does)")
+        ctx.require(n11 >= 6, f"public entry points with an aliaser parameter: {n11} found")
+
     # ---------------- R2: sinks
     ctx.rule(ids["R2"], "every external-key sink receives the alias aliased exactly once", floor=12 if P == "C11" else 3)
     if P == "C11":
@@ -459,6 +495,7 @@ def fixtures(ctx):
 
 
 def mutants(mb):
+    mb.add_text("validate-identity-aliaser", "apischema/validation/validators.py", "    aliaser: Optional[Aliaser] = None,\n) -> T:\n    if aliaser is None:\n        from apischema import settings\n\n        aliaser = settings.aliaser\n", "    aliaser: Aliaser = lambda s: s,\n) -> T:\n", "C11.R11", "validate")
     mb.add_text("schema-inherits-pass-through", "apischema/json_schema/schema.py", "        # the schema must not depend on the serialization settings of the user\n        pass_through=PassThroughOptions(),\n", "", "C11.R10", "pass_through")
     mb.add_text("schema-default-global-aliaser", "apischema/json_schema/schema.py", "                    # keys are aliased with the rest of the schema\n                    aliaser=AliasedStr,\n", "", "C11.R10", "aliaser")
     mb.add_text("resolver-field-after-optional", "apischema/graphql/resolvers.py", "        param_type = types[param.name]\n        if is_union_of(param_type, graphql.GraphQLResolveInfo):\n            info_parameter = param.name\n        else:\n",
